@@ -123,42 +123,43 @@ func pidContent(r *rng.R, pid int) string {
 	}
 }
 
-// reloadCase runs one real ManagerImpl.Reload against a fresh simulated master.
-func reloadCase(r *rng.R, root string, pid int, slowOK bool) (out line) {
-	defer func() {
-		if p := recover(); p != nil {
-			out.note = fmt.Sprintf("panic in Reload: %v", p)
-		}
-	}()
-	m, err := newMaster(root, pid)
-	if err != nil {
-		return line{note: "simulator: " + err.Error(), kind: "sim-error"}
-	}
-	defer m.close()
+// rspec is one Reload case: the simulator script, the same thing in the oracle vocabulary of the
+// Lean model, and the (scaled) timeouts.
+type rspec struct {
+	n                   int
+	sc                  *Script
+	pp, pr, prev, ch    string
+	vs                  []VerAns
+	pidTimeout, timeout time.Duration
+	modelled            bool
+	kind                []string
+}
 
+// genReload draws one Reload case.
+func genReload(r *rng.R, pid int, slowOK bool) rspec {
 	n := r.Range(1, 40)
 	if r.Chance(1, 15) {
 		n = 0
 	}
 	sc := &Script{Kill: true, Child: "changed", PidPolls: "p", PidRead: pidContent(r, pid)}
-	pp, pb, pr := "p", 40, strconv.Itoa(pid)
+	pp, pr := "p", strconv.Itoa(pid)
 	pidTimeout := longTimeout
 	kind := []string{}
 	// pid file
 	switch p := r.Intn(100); {
-	case p < 4:
-		sc.PidPolls, pp = "s", "s"
-		kind = append(kind, "pid-stat-err")
-	case p < 7 && slowOK:
+	case slowOK && pid%3 == 0:
 		sc.PidPolls, pp = "mp", "m,p"
 		kind = append(kind, "pid-late")
-	case p < 9 && slowOK:
+	case slowOK && pid%3 == 1:
 		sc.PidPolls, pp = "ms", "m,s"
 		kind = append(kind, "pid-late-stat-err")
-	case p < 11 && slowOK:
+	case slowOK:
 		sc.PidPolls, pp = "m", "m,m"
 		pidTimeout = 650 * time.Millisecond
 		kind = append(kind, "pid-never")
+	case p < 4:
+		sc.PidPolls, pp = "s", "s"
+		kind = append(kind, "pid-stat-err")
 	}
 	switch p := r.Intn(100); {
 	case p < 5:
@@ -175,6 +176,7 @@ func reloadCase(r *rng.R, root string, pid int, slowOK bool) (out line) {
 	}
 	if r.Chance(1, 12) {
 		sc.Kill = false
+		sc.Spurious = r.Bool()
 		kind = append(kind, "kill-fails")
 	}
 	ch := "2"
@@ -219,6 +221,29 @@ func reloadCase(r *rng.R, root string, pid int, slowOK bool) (out line) {
 		kind = append(kind, "clean")
 	}
 
+	return rspec{n: n, sc: sc, pp: pp, pr: pr, prev: prev, ch: ch, vs: vs, pidTimeout: pidTimeout,
+		timeout: timeout, modelled: modelled, kind: kind}
+}
+
+// reloadCase runs one real ManagerImpl.Reload against a fresh simulated master.
+func reloadCase(r *rng.R, root string, pid int, slowOK bool) line {
+	return runReload(root, pid, genReload(r, pid, slowOK))
+}
+
+func runReload(root string, pid int, s rspec) (out line) {
+	defer func() {
+		if p := recover(); p != nil {
+			out.note = fmt.Sprintf("panic in Reload: %v", p)
+		}
+	}()
+	m, err := newMaster(root, pid)
+	if err != nil {
+		return line{note: "simulator: " + err.Error(), kind: "sim-error"}
+	}
+	defer m.close()
+	n, sc, pp, pr, prev, ch, vs := s.n, s.sc, s.pp, s.pr, s.prev, s.ch, s.vs
+	pidTimeout, timeout, modelled, kind := s.pidTimeout, s.timeout, s.modelled, s.kind
+	pb := 40
 	m.install(sc)
 	mc := &metrics{}
 	vc := ngxruntime.VerifC12NewVerifyClient(m.sock, timeout)
@@ -305,7 +330,7 @@ func waitCase(r *rng.R, root string, pid int) (out line) {
 		idx++
 		last = c
 		if c == "e" {
-			return nil, errPrevRead
+			return nil, errChildRd
 		}
 		return content(c), nil
 	}
@@ -339,4 +364,69 @@ func b01(b bool) string {
 		return "1"
 	}
 	return "0"
+}
+
+// corpusReload turns a line in the model's R vocabulary (corpus/C12/*.txt) into a Reload case:
+//
+//	R pp=p pb=40 pr=7 prev=1 kill=1 ch=2 vs=4,5 b=1000 n=5 [spurious=1]
+//
+// pr: e | g | <anything else: the case's pid>; ch: e = removed, first element != 1 = changed at
+// the HUP, otherwise never; vs: e = HTTP 500 with the expected number as body.
+func corpusReload(l string, pid int) (rspec, bool) {
+	f := map[string]string{}
+	for _, kv := range strings.Fields(l)[1:] {
+		if i := strings.IndexByte(kv, '='); i > 0 {
+			f[kv[:i]] = kv[i+1:]
+		}
+	}
+	n, err := strconv.Atoi(f["n"])
+	if err != nil || f["pp"] == "" || f["ch"] == "" {
+		return rspec{}, false
+	}
+	sc := &Script{Kill: f["kill"] != "0", Spurious: f["spurious"] == "1", PrevErr: f["prev"] == "e",
+		PidPolls: strings.ReplaceAll(f["pp"], ",", ""), PidRead: strconv.Itoa(pid) + "\n", Stale: n + 1000}
+	s := rspec{n: n, sc: sc, pp: f["pp"], pr: strconv.Itoa(pid), prev: "1", ch: f["ch"], modelled: true,
+		pidTimeout: longTimeout, timeout: longTimeout, kind: []string{"corpus"}}
+	if !strings.Contains(sc.PidPolls, "p") && !strings.Contains(sc.PidPolls, "s") {
+		s.pidTimeout = 650 * time.Millisecond
+	}
+	switch f["pr"] {
+	case "e":
+		sc.PidRead, s.pr = "\x00err", "e"
+	case "g":
+		sc.PidRead, s.pr = "12 34", "g"
+	}
+	if sc.PrevErr {
+		s.prev = "e"
+	}
+	first := strings.Split(f["ch"], ",")[0]
+	switch {
+	case first == "e":
+		sc.Child = "removed"
+	case first != "1":
+		sc.Child = "changed"
+	default:
+		sc.Child, s.timeout = "same", shortTimeout
+	}
+	term := false
+	if f["vs"] != "-" && f["vs"] != "" {
+		for _, a := range strings.Split(f["vs"], ",") {
+			if a == "e" {
+				s.vs = append(s.vs, VerAns{Kind: "e500", V: n})
+				term = true
+				continue
+			}
+			v, err := strconv.Atoi(a)
+			if err != nil {
+				return rspec{}, false
+			}
+			s.vs = append(s.vs, VerAns{Kind: "int", V: v})
+			term = term || v == n
+		}
+	}
+	sc.Vers = s.vs
+	if !term {
+		s.timeout = shortTimeout
+	}
+	return s, true
 }
